@@ -960,7 +960,14 @@ def main(run):
     run.assumptions += ["fitness values finite (no NaN)", "initial population of the MO strategy has exactly mu members",
                         "random vectors / evolution paths entering a rank-one update are non-zero (probability-one event)",
                         "condition number of the factors below 1e12"]
-    run.build_props()
+    if not run.build_props():
+        # coqc killed by the OOM killer under machine-wide memory pressure leaves no "Error" text:
+        # that is not a broken obligation -- try once more
+        if run.broken and all("Error" not in (b.get("log") or "") for b in run.broken):
+            run.notes.append("build interrupted without a Coq error (killed?); retried once")
+            del run.broken[:]
+            del run.obligations[:]
+            run.build_props()
     rng = run.rng
     ctx = Ctx(run)
     np.seterr(all="ignore")
@@ -1030,5 +1037,13 @@ def main(run):
         run_mo(ctx, cfg)
 
     run.extra_cov["branches_exercised"] = ctx.branch
-    run.correspond("rounds", "C14", ctx.terms, ctx.cases, shard=run.scale(24, 40), timeout=1500,
-                  requires=["From Coq Require Import PrimFloat."])
+    n0 = len(run.disagreements)
+    kw = dict(shard=run.scale(24, 40), timeout=1500, requires=["From Coq Require Import PrimFloat."])
+    run.correspond("rounds", "C14", ctx.terms, ctx.cases, **kw)
+    errs = [d for d in run.disagreements[n0:] if d.get("index") is None]
+    if errs and all("Error" not in ((d.get("coq_error") or {}).get("log") or "") for d in errs):
+        # shards whose coqc was killed without any Coq error (memory pressure): evaluate everything once more
+        run.notes.append("%d correspondence shards interrupted without a Coq error (killed?); retried once" % len(errs))
+        del run.disagreements[n0:]
+        run.corr_groups.pop("rounds", None)
+        run.correspond("rounds", "C14", ctx.terms, ctx.cases, **kw)
